@@ -201,6 +201,13 @@ def history_task(task):
                             part.count("wellformed_evaluations")
                     if "rebuild" in mons:
                         st = {}
+                        want = sorted(set(by_idx) - set(hist.unassigned))
+                        have = sorted(new.labels.keys())
+                        if have != want:
+                            # the rebuild oracle takes shape and assignment from the edited tree itself: an edit that
+                            # silently loses part of the assignment must not pass as "equal to the rebuild of what is left"
+                            raise Broken("edited tree no longer holds the assignment it was given: its likelihoods and joint "
+                                         "densities are those of another assignment", {"holds": have, "given": want})
                         dev = monitors.rebuild_equal(new, by_idx, tds, stats=st)
                         part.count("trees_outside_underflow_window", st.get("outside_window", 0))
                         part.maxi("max_rebuild_dev", dev)
